@@ -83,6 +83,7 @@ type Opts struct {
 	XidPool   int
 	CloseMid  bool // Close races with in-flight calls
 	T         time.Duration
+	Cfg       int // client logging configuration (cli.NewCfg)
 }
 
 // The library hook variable is written once per process and family, before any client exists; the action of
@@ -140,7 +141,7 @@ func Run(f cli.Family, rng *rand.Rand, o Opts) *History {
 			mu.Unlock()
 		}
 	}
-	c, err := f.New(conn, o.T, 1)
+	c, err := f.NewCfg(conn, o.T, 1, o.Cfg)
 	if err != nil {
 		panic(err)
 	}
@@ -511,7 +512,7 @@ func Herd(f cli.Family, rounds, g int) (bad int, maxAdmitted int, detail string)
 			parked.Add(1)
 			<-release
 		}
-		c, err := f.New(conn, 50*time.Millisecond, 1)
+		c, err := f.NewCfg(conn, 50*time.Millisecond, 1, r)
 		if err != nil {
 			panic(err)
 		}
